@@ -104,7 +104,7 @@ func c03Build(members []string, sep, placement string) (tpl string, want []strin
 				want = append(want, id, id)
 			}
 		}
-		if placement == "tmpl" {
+		if placement == "tmpl" || placement == "inctmpl" {
 			parts = append(parts, fmt.Sprintf(`<template%s><i id="%s">%s</i></template>`, attr, id, id))
 		} else {
 			parts = append(parts, fmt.Sprintf(`<i id="%s"%s>%s</i>`, id, attr, id))
@@ -112,7 +112,7 @@ func c03Build(members []string, sep, placement string) (tpl string, want []strin
 	}
 	body := strings.Join(parts, sepS)
 	switch placement {
-	case "top", "tmpl":
+	case "top", "tmpl", "inc", "inctmpl": // (inc, inctmpl: the body is a component's file)
 		tpl = body
 	case "div":
 		tpl = "<div>" + sepS + body + sepS + "</div>"
@@ -196,6 +196,22 @@ func c03Observe(ctx *core.Ctx, consumer, reach string, tv truthVal) (truthy bool
 	case "item":
 		x = "it"
 		data["xs"] = []any{tv.V}
+	case "shadow":
+		// the value is bound in an inner scope (a loop variable) while an outer scope binds the
+		// same name to a value of the opposite truthiness: the inner binding is the one that counts
+		x = "x"
+		opposite := any("outer")
+		if tv.Truth > 0 {
+			opposite = nil
+		}
+		data["x"] = opposite
+		data["xs"] = []any{tv.V}
+		ctx.Eval(1)
+		out, err = renderString(`<div v-for="x in xs">`+c03TruthTpl(consumer, x)+`</div>`, data)
+		if err != nil {
+			return false, err, out
+		}
+		return c03Judge(consumer, out)
 	case "slotrow":
 		// the consumer is slot content that a component uses once per row: the same source node is
 		// evaluated first with a value of the opposite truthiness, then with the value (judged)
@@ -311,7 +327,13 @@ func (c *c03Case) Run(ctx *core.Ctx) {
 		members := strings.Fields(c.Members)
 		tpl, want, defined := c03Build(members, c.Sep, c.Placement)
 		ctx.Eval(1)
-		out, err := renderString(tpl, c03Data())
+		out, err := "", error(nil)
+		if strings.HasPrefix(c.Placement, "inc") {
+			// the chain is all a component has; with <template> members the file starts with one
+			out, err = renderStringFS(Files{"c.vuego": tpl}, `<template include="c.vuego"></template>`, c03Data())
+		} else {
+			out, err = renderString(tpl, c03Data())
+		}
 		if err != nil {
 			ctx.Violation("chain-error", c.Placement+"/"+c.Sep, c.Members, fmt.Sprintf("tpl %q: %v", tpl, err))
 			return
@@ -395,8 +417,8 @@ func init() {
 	core.Register(&core.Check{
 		ID:    "C03",
 		Level: "exploration",
-		Rule: "chain part: every sibling list up to the bound over {plain, v-if(T/F), v-else-if(T/F), v-else, v-for over an empty / one-element list, v-else / v-else-if members that are themselves loops} x separators {none, whitespace, comment, both} x placements {top, div, v-for x2, <template> members, nested in a taken branch, deep}; oracle: reference chain evaluator gives the ordered marker list. " +
-			"truth part: 46 Go values x 7 ways of reaching them (variable, nested key, loop item, struct field by JSON tag, dotted index, hyphenated key, slot content evaluated a second time after a value of the opposite truthiness) x 12 consumers (v-if, v-else-if, !x, v-show, :attr, :class object, !!x, x && true, !x && true, x || false, x ? : in a binding, :attr with !x, v-show next to a static style and on v-if / v-else members); oracles: documented table and agreement between consumers. non-trivial = chain of >=2 members with defined semantics, or any truth case",
+		Rule: "chain part: every sibling list up to the bound over {plain, v-if(T/F), v-else-if(T/F), v-else, v-for over an empty / one-element list, v-else / v-else-if members that are themselves loops} x separators {none, whitespace, comment, both} x placements {top, div, v-for x2, <template> members, nested in a taken branch, deep, as the whole of a component file with element members / with <template> members}; oracle: reference chain evaluator gives the ordered marker list. " +
+			"truth part: 46 Go values x 8 ways of reaching them (variable, nested key, loop item, struct field by JSON tag, dotted index, hyphenated key, slot content evaluated a second time after a value of the opposite truthiness, a loop variable that shadows an outer variable of the opposite truthiness) x 12 consumers (v-if, v-else-if, !x, v-show, :attr, :class object, !!x, x && true, !x && true, x || false, x ? : in a binding, :attr with !x, v-show next to a static style and on v-if / v-else members); oracles: documented table and agreement between consumers. non-trivial = chain of >=2 members with defined semantics, or any truth case",
 		Bounds:      map[string]string{"quick": "sibling lists of length <= 5", "thorough": "sibling lists of length <= 6"},
 		Assumptions: []string{"what an orphan v-else/v-else-if renders, and members after a v-else, are unconstrained (only plain siblings are checked there)", "NaN and the string \"false\" are checked for uniformity only"},
 		Decode:      core.DecodeAs[c03Case](),
@@ -405,8 +427,8 @@ func init() {
 				if tv.Name == "nil_ptr" {
 					emit(&c03Case{Part: "truth", Val: tv.Name, Reach: "ptrfield"})
 				}
-				for _, r := range []string{"var", "nested", "item", "tagfield", "dotindex", "hyphen", "slotrow"} {
-					if (r == "item" || r == "tagfield" || r == "dotindex" || r == "hyphen" || r == "slotrow") && tv.Name == "missing" {
+				for _, r := range []string{"var", "nested", "item", "tagfield", "dotindex", "hyphen", "slotrow", "shadow"} {
+					if (r == "item" || r == "tagfield" || r == "dotindex" || r == "hyphen" || r == "slotrow" || r == "shadow") && tv.Name == "missing" {
 						continue
 					}
 					emit(&c03Case{Part: "truth", Val: tv.Name, Reach: r})
@@ -423,7 +445,7 @@ func init() {
 					ms = append(ms, opts[i])
 				}
 				m := strings.Join(ms, " ")
-				for _, pl := range []string{"top", "div", "for2", "tmpl", "nested", "deep"} {
+				for _, pl := range []string{"top", "div", "for2", "tmpl", "nested", "deep", "inc", "inctmpl"} {
 					for _, sep := range []string{"none", "ws", "comment", "wscomment"} {
 						emit(&c03Case{Part: "chain", Members: m, Sep: sep, Placement: pl})
 					}
